@@ -1,7 +1,9 @@
 """C06 - ARM decode: every 32-bit word maps to the architectural instruction and operands."""
 import random
 
+from .. import campaign as C
 from .. import decodecheck as D
+from .. import suite_trace as ST
 
 
 def run(ctx):
@@ -16,6 +18,13 @@ def run(ctx):
     words += [(rnd.getrandbits(32), None, 'uniform') for _ in range(4000 if q else 150000)]
     groups, res = D.run_words(ctx, rnd, words, thumb=False)
     D.check_cube_class(res)
+    # the repository's own tests as a trace source: every emulate_cycle() they perform, judged on the complete state
+    sg, summary = ST.groups(thumb=False)
+    sres = C.judge_groups(ctx, sg, D.clause_filter, rnd=rnd, tags_of=D.tags_of, site_of=lambda e, v: (e.get('cls') or v['path']))
+    ctx.extra['repo_test_suite_events'] = {'events': len(sres), 'exact': sum(1 for g, e, v in sres if v['path'].startswith('exact')),
+                                           'pytest': summary}
+    if len(sres) < 100:
+        raise D.MachineryError('only %d events recorded from the repository test suite' % len(sres))
     D.summarize(ctx, res, 'arm')
     classes = sorted({l[2] for l in leaves})
     ctx.exhaustive = True
